@@ -20,7 +20,7 @@ STUBS = []
 ASSUMPTIONS = ['units have variable-size port lists (1-3 inlets/outlets arise from the graph); a unit without inlet gets a feed, without outlet a product',
                'set iteration order inside thermosteam depends on object addresses: a violation is replayed in a fresh process and reported only if it reproduces there']
 OUTSIDE = ['more than 4 units in every labelling (quick) / 5 (thorough); 6 units only in topological labellings with at most 2 (quick) / 3 (thorough) ports per side', 'more than 6 units', 'more than 2 back edges', 'auxiliary units, interaction units, systems']
-BOUNDS = {'quick': dict(units='2..4 (+ 6: topologically labelled DAGs, <= 7 edges, <= 2 ports per side, rotations + reversal of the unit list)', orders='all permutations', back_edges='0..1'),
+BOUNDS = {'quick': dict(units='2..4 (+ 6: topologically labelled DAGs, <= 7 edges, <= 2 ports per side, rotations + reversal of the unit list)', orders='all permutations', back_edges='0..1 (2 back edges on 3 units)'),
           'thorough': dict(units='2..5 (5: DAGs with <= 6 edges, rotations of the unit list)', orders='all permutations (<=4 units)', back_edges='0..2')}
 _cls = {}
 _graphs = {}
@@ -56,38 +56,56 @@ def connected(n, edges):
 
 
 def dags(n, max_edges=None, max_deg=3, canonical=False):
-    """all connected DAGs on n labelled nodes with in/out degree <= max_deg (z3 AllSAT).
-    canonical=True: one labelling per topological order only (edges i -> j with i < j); the labelled
-    orders in which the units are SUPPLIED are still varied by the caller"""
+    """all connected DAGs on n labelled nodes with in/out degree <= max_deg.
+    z3 AllSAT (pure Boolean: one variable per pair i < j, cardinality constraints for the degrees and the edge
+    budget; the final unsat certifies that the enumeration is complete) produces every TOPOLOGICALLY LABELLED
+    DAG (edges i -> j with i < j).  canonical=True returns those; otherwise every relabelling of them is taken -
+    every labelled DAG has a topological order, so this is exactly the set of labelled DAGs within the bound.
+    The orders in which the units are SUPPLIED are varied separately by the caller."""
     key = (n, max_edges, max_deg, canonical)
     if key in _graphs:
         return _graphs[key]
-    s = z3.Solver()
-    e = [[z3.Bool(f'e{i}{j}') for j in range(n)] for i in range(n)]
-    r = [z3.Int(f'r{i}') for i in range(n)]
-    pairs = [(i, j) for i in range(n) for j in range(n) if i != j]
-    for i in range(n):
-        s.add(z3.Not(e[i][i]), r[i] >= 0, r[i] < n)
-        s.add(z3.Sum([z3.If(e[i][j], 1, 0) for j in range(n) if j != i]) <= max_deg)
-        s.add(z3.Sum([z3.If(e[j][i], 1, 0) for j in range(n) if j != i]) <= max_deg)
-    for i, j in pairs:
-        s.add(z3.Implies(e[i][j], r[i] < r[j]))
+    ckey = (n, max_edges, max_deg, True)
+    if ckey not in _graphs:
+        s = z3.Solver()
+        pairs = [(i, j) for i in range(n) for j in range(i + 1, n)]
+        e = {p: z3.Bool(f'e{p[0]}{p[1]}') for p in pairs}
+        for i in range(n):
+            outs = [e[p] for p in pairs if p[0] == i]
+            ins = [e[p] for p in pairs if p[1] == i]
+            if len(outs) > max_deg:
+                s.add(z3.AtMost(*outs, max_deg))
+            if len(ins) > max_deg:
+                s.add(z3.AtMost(*ins, max_deg))
+        if max_edges is not None and len(pairs) > max_edges:
+            s.add(z3.AtMost(*e.values(), max_edges))
+        s.add(z3.AtLeast(*e.values(), n - 1))          # a connected graph has at least n - 1 edges
+        vs = [e[p] for p in pairs]
+        out = []
+        # cube-and-enumerate: the first k variables are fixed in turn (2^k cubes, together exhaustive), the
+        # blocking clauses of a cube are popped with it; every cube ends with unsat
+        k = min(6, max(0, len(vs) - 4))
+        for cube in itertools.product([False, True], repeat=k):
+            s.push()
+            s.add(*[v if b else z3.Not(v) for v, b in zip(vs[:k], cube)])
+            while s.check() == z3.sat:
+                m = s.model()
+                val = [bool(m.eval(v, model_completion=True)) for v in vs]
+                s.add(z3.Or([z3.Not(v) if b else v for v, b in zip(vs, val)]))
+                edges = tuple(p for p, b in zip(pairs, val) if b)
+                if connected(n, edges):
+                    out.append(edges)
+            s.pop()
+        out.sort()
+        _graphs[ckey] = out
     if canonical:
-        s.add(*[r[i] == i for i in range(n)])
-    if max_edges is not None:
-        s.add(z3.Sum([z3.If(e[i][j], 1, 0) for i, j in pairs]) <= max_edges)
-    vs = [e[i][j] for i, j in pairs]
-    out = []
-    while s.check() == z3.sat:
-        m = s.model()
-        val = [bool(m.eval(v, model_completion=True)) for v in vs]
-        s.add(z3.Or([v != b for v, b in zip(vs, val)]))
-        edges = tuple(p for p, b in zip(pairs, val) if b)
-        if connected(n, edges):
-            out.append(edges)
-    out.sort()
-    _graphs[key] = out
-    return out
+        return _graphs[ckey]
+    labelled = set()
+    for edges in _graphs[ckey]:
+        for perm in itertools.permutations(range(n)):
+            labelled.add(tuple(sorted((perm[a], perm[b]) for a, b in edges)))
+    _graphs[key] = sorted(labelled)
+    return _graphs[key]
 
 
 def reach(n, edges):
@@ -210,7 +228,8 @@ def g_cyclic(ns, n_back_choices, all_perms=True, max_edges=None):
         path = flat(net)
         sig = f'n={n}/back={nb}'
         info = dict(edges=edges, back=back, order=list(perm))
-        E.prove('path-contains-exactly-the-given-units', len(path) == n and set(path) == set(us), sig=sig, info=info)
+        E.prove('path-contains-exactly-the-given-units', set(path) == set(us), sig=sig, info=info)
+        E.prove('no-unit-listed-twice-in-the-path', len(path) == len(set(path)), sig=sig, info=dict(info, path=[us.index(u) for u in path if u in us]))
         rec = net.get_all_recycles()
         E.prove('at-least-one-recycle-reported-for-cyclic-flowsheet', len(rec) >= 1, sig=sig, info=info)
         if len(path) == n and set(path) == set(us):
@@ -228,9 +247,14 @@ def g_cyclic(ns, n_back_choices, all_perms=True, max_edges=None):
 
 def groups(tier):
     q = tier == 'quick'
+    # enumerate the flowsheets once, before the worker processes are forked
+    dags(2), dags(3), dags(4), dags(6, 7 if q else None, 2 if q else 3, True)
+    if not q:
+        dags(5, 6)
     g = {
         'acyclic': (g_acyclic([2, 3, 4]), dict(max_paths=5000000, witnesses=4)),
         'cyclic-1-back-edge': (g_cyclic([2, 3] if q else [2, 3, 4], [1]), dict(max_paths=5000000, witnesses=4)),
+        'cyclic-2-back-edges': (g_cyclic([3] if q else [3, 4], [2], all_perms=True), dict(max_paths=20000000, witnesses=4)),
     }
     # 6 units: topologically labelled flowsheets only (the outlet order of a unit follows the labels), unit list
     # supplied in every rotation and reversed
@@ -238,5 +262,4 @@ def groups(tier):
                             dict(max_paths=20000000, witnesses=4))
     if not q:
         g['acyclic-5-units'] = (g_acyclic([5], all_perms=False, max_edges=6), dict(max_paths=20000000, witnesses=4))
-        g['cyclic-2-back-edges'] = (g_cyclic([3, 4], [2], all_perms=True), dict(max_paths=20000000, witnesses=4))
     return g
